@@ -181,6 +181,9 @@ func LRGrammarGen(stateful bool) *rapid.Generator[*Grammar] {
 			g.Entries = append(g.Entries, w.Name)
 		}
 		g.Pkg = "p"
+		if len(g.Rules) > 1 && c.chance(12, "decoyrule") {
+			g.Decoy = g.Rules[c.intn(1, len(g.Rules)-1, "decoyidx")].Name
+		}
 		g.Analyze()
 		if err := g.Validate(); err != nil {
 			panic("gspec LR generator bug: " + err.Error())
